@@ -161,6 +161,7 @@ impl Source for TapeSource {
 /// RAII guard: installs a tape on this thread, uninstalls on drop (also on unwind).
 pub struct TapeGuard {
     log: Rc<RefCell<TapeLog>>,
+    armed: bool,
 }
 
 impl TapeGuard {
@@ -168,7 +169,11 @@ impl TapeGuard {
         let log = Rc::new(RefCell::new(TapeLog::default()));
         let prev = rand::sim::install(Box::new(TapeSource::new(spec.clone(), log.clone())));
         assert!(prev.is_none(), "harness error: nested tape install");
-        TapeGuard { log }
+        TapeGuard { log, armed: true }
+    }
+    /// give the guard up WITHOUT uninstalling the source (someone else's guard will); unlike `mem::forget` this frees the log
+    pub fn dismiss(mut self) {
+        self.armed = false;
     }
     pub fn log(&self) -> TapeLog {
         self.log.borrow().clone()
@@ -180,7 +185,9 @@ impl TapeGuard {
 
 impl Drop for TapeGuard {
     fn drop(&mut self) {
-        rand::sim::uninstall();
+        if self.armed {
+            rand::sim::uninstall();
+        }
     }
 }
 
